@@ -8,7 +8,8 @@ Import ListNotations.
 Open Scope nat_scope.
 Open Scope list_scope.
 
-Definition nofloat_key (k : gokey) : bool := match k with KFlt _ _ _ | KUnhashable => false | _ => true end.
+Definition nofloat_key (k : gokey) : bool :=
+  match k with KFlt _ _ _ | KUnhashable => false | KRat _ d => (0 <? d)%Z | _ => true end.
 Lemma gokey_refl : forall k, nofloat_key k = true -> gokey_eqb k k = true.
 Proof.
   intros [] H; simpl in *; try discriminate; auto; try apply Z.eqb_refl; try apply N.eqb_refl; try apply lN_eqb_refl.
@@ -16,7 +17,8 @@ Proof.
 Qed.
 Lemma gokey_sym : forall a b, nofloat_key a = true -> nofloat_key b = true -> gokey_eqb a b = gokey_eqb b a.
 Proof.
-  intros [| |x|k m e|x|x|x|k1 w1|] [| |y|k' m' e'|y|y|y|k2 w2|] _ _; simpl; auto; try apply Z.eqb_sym; try apply N.eqb_sym; try apply lN_eqb_sym.
+  intros [| |x|k m e|x|x|x|x|n1 d1|k1 w1|] [| |y|k' m' e'|y|y|y|y|n2 d2|k2 w2|] _ _; simpl; auto;
+    try apply Z.eqb_sym; try apply N.eqb_sym; try apply lN_eqb_sym.
   - rewrite fkind_eqb_sym. f_equal. apply (dy_eqb_sym (m, e) (m', e')).
   - rewrite (N.eqb_sym k1 k2), (N.eqb_sym w1 w2). reflexivity.
 Qed.
@@ -29,23 +31,65 @@ Proof.
   - apply N.eqb_eq in H1, H2. subst. apply N.eqb_refl.
   - apply lN_eqb_eq in H1, H2. subst. apply lN_eqb_refl.
   - apply lN_eqb_eq in H1, H2. subst. apply lN_eqb_refl.
+  - apply Z.eqb_eq in H1, H2. subst. apply Z.eqb_refl.
+  - apply Z.eqb_eq in H1, H2. apply Z.eqb_eq. apply Z.ltb_lt in Ha, Hb, Hc.
+    apply (Z.mul_cancel_r _ _ d0); [lia|]. transitivity (n0 * d * d1)%Z; [nia|]. nia.
   - apply andb_true_iff in H1 as [A1 B1]. apply andb_true_iff in H2 as [A2 B2].
     apply N.eqb_eq in A1, A2, B1, B2. subst. rewrite !N.eqb_refl. reflexivity.
 Qed.
 
-(* eql = Go's == on simple keys other than lists *)
+(* eql = Go's == (after HashTable.Key) on simple keys other than lists *)
 Definition is_lst (x : obj) : bool := match x with Lst _ => true | _ => false end.
+Lemma int64_sep : forall a b, int64_ok a = true -> negb (int64_ok b) = true -> (a =? b)%Z = false /\ (b =? a)%Z = false.
+Proof.
+  intros a b Ha Hb. apply negb_true_iff in Hb.
+  split; apply Z.eqb_neq; intro E; subst; congruence.
+Qed.
+Definition rat_key_ok (n d : Z) : bool := ((0 <? d) && (Z.gcd n d =? 1) && negb (d =? 1) && (Z.abs n <? 2 ^ 62))%Z.
+Lemma rat_key_facts : forall n d, rat_key_ok n d = true -> (0 < d /\ Z.gcd n d = 1 /\ d <> 1 /\ Z.abs n < 2 ^ 62)%Z.
+Proof.
+  intros n d H. unfold rat_key_ok in H. apply andb_true_iff in H as [H H4]. apply andb_true_iff in H as [H H3].
+  apply andb_true_iff in H as [H1 H2]. apply Z.ltb_lt in H1, H4. apply Z.eqb_eq in H2. apply negb_true_iff in H3.
+  apply Z.eqb_neq in H3. auto.
+Qed.
+Lemma rat_not_int : forall n d a, rat_key_ok n d = true -> ((a * d =? n) = false /\ (n =? a * d) = false)%Z.
+Proof.
+  intros n d a H. destruct (rat_key_facts n d H) as (Hd & Hg & H1 & _).
+  split; apply Z.eqb_neq; intro E; apply H1; apply (gcd_one_divides n d a Hd Hg); lia.
+Qed.
+Lemma rat_not_big : forall n d a, rat_key_ok n d = true -> negb (int64_ok a) = true ->
+  same_m (Big a) (Rat n d) = false /\ same_m (Rat n d) (Big a) = false.
+Proof.
+  intros n d a H Ha. destruct (rat_key_facts n d H) as (Hd & _ & _ & Hn). apply negb_true_iff in Ha.
+  unfold same_m. rewrite Ha.
+  destruct (rne_small 53 n d a Hd Hn Ha) as [-> _].
+  destruct (rne_small (Z.max (bitlen a) 64) n d a Hd Hn Ha) as [_ ->]. auto.
+Qed.
+
 Lemma eql_is_gokey : forall a b, simple_key (r_obj a) = true -> simple_key (r_obj b) = true ->
   is_lst (r_obj a) = false -> is_lst (r_obj b) = false ->
   consistent2 a b -> const_words a b -> eql_m a b = gokey_eqb (gokey_of a) (gokey_of b).
 Proof.
-  intros [x w] [y v] Sa Sb La Lb C K. unfold consistent2, const_words, eql_m, eq_m, gokey_of in *. simpl in *.
-  destruct x; simpl in Sa, La; try discriminate; destruct y; simpl in Sb, Lb; try discriminate; simpl; auto;
-    try (rewrite orb_false_r; reflexivity).
+  intros [x w] [y v] Sa Sb La Lb C K. unfold consistent2, const_words, eql_m, eq_m, gokey_of in *.
+  cbn [r_obj r_word] in *.
+  destruct x; cbn [simple_key is_lst] in Sa, La; try discriminate;
+    destruct y; cbn [simple_key is_lst] in Sb, Lb; try discriminate;
+    cbn [same_gotype eql_s is_number gokey_eqb andb orb];
+    try reflexivity; try (rewrite orb_false_r; reflexivity).
   - (* Nil *) rewrite orb_false_r. apply N.eqb_eq. apply K; auto.
   - (* Tru *) rewrite orb_false_r. apply N.eqb_eq. apply K; auto.
-  - (* Fix *) destruct (Z.eqb_spec z z0) as [->|N]; [apply orb_true_r|]. rewrite orb_false_r.
+  - (* Fix, Fix *) unfold same_m. destruct (Z.eqb_spec z z0) as [->|N]; [apply orb_true_r|]. rewrite orb_false_r.
     apply N.eqb_neq. intro E. specialize (C eq_refl E). inversion C. contradiction.
+  - (* Fix, Big *) unfold same_m. apply (int64_sep z z0 Sa Sb).
+  - (* Fix, Rat *) unfold same_m. apply (rat_not_int n d z Sb).
+  - (* Big, Fix *) unfold same_m. apply (int64_sep z0 z Sb Sa).
+  - (* Big, Big *) unfold same_m. destruct (Z.eqb_spec z z0) as [->|N]; [apply orb_true_r|]. rewrite orb_false_r.
+    apply N.eqb_neq. intro E. specialize (C eq_refl E). inversion C. contradiction.
+  - (* Big, Rat *) apply (rat_not_big n d z Sb Sa).
+  - (* Rat, Fix *) unfold same_m. apply (rat_not_int n d z Sa).
+  - (* Rat, Big *) apply (rat_not_big n d z Sa Sb).
+  - (* Rat, Rat *) unfold same_m. destruct (Z.eqb_spec (n * d0) (n0 * d)) as [E0|N]; [apply orb_true_r|]. rewrite orb_false_r.
+    apply N.eqb_neq. intro E. specialize (C eq_refl E). inversion C. subst. contradiction.
   - (* Chr *) destruct (N.eqb_spec c c0) as [->|N]; [apply orb_true_r|]. rewrite orb_false_r.
     apply N.eqb_neq. intro E. specialize (C eq_refl E). inversion C. contradiction.
   - (* Str *) destruct (lN_eqb s s0) eqn:E0; [apply orb_true_r|]. rewrite orb_false_r.
@@ -70,7 +114,7 @@ Proof.
   intros [x w] [y v] La Lb. unfold eq_m. simpl in *. destruct x; try discriminate. destruct y; try discriminate; simpl; auto.
 Qed.
 Lemma simple_hashable : forall a, simple_key (r_obj a) = true -> hashable (gokey_of a) = negb (is_lst (r_obj a)).
-Proof. intros [x w] S. destruct x; simpl in *; try discriminate; reflexivity. Qed.
+Proof. intros [x w] S. destruct x; cbn [r_obj simple_key gokey_of hashable is_lst negb] in *; try discriminate; reflexivity. Qed.
 
 Lemma forallb_seq_intro : forall (f : nat -> bool) len, (forall i, i < len -> f i = true) -> forallb f (seq 0 len) = true.
 Proof. intros f len H. apply forallb_forall. intros i Hi. apply in_seq in Hi. apply H. lia. Qed.
@@ -87,7 +131,10 @@ Section SimpleRefs.
   Hypothesis Cac : consistent2 a c /\ const_words a c.
   Let nl (r : ref) := is_lst (r_obj r) = false.
   Lemma key_nofloat : forall r, simple_key (r_obj r) = true -> is_lst (r_obj r) = false -> nofloat_key (gokey_of r) = true.
-  Proof. intros [x w] S L. destruct x; simpl in *; try discriminate; reflexivity. Qed.
+  Proof.
+    intros [x w] S L. destruct x; cbn [r_obj simple_key is_lst gokey_of nofloat_key] in *; try discriminate; try reflexivity.
+    apply andb_true_iff in S as [S _]. apply andb_true_iff in S as [S _]. apply andb_true_iff in S as [S _]. exact S.
+  Qed.
   Lemma simple_sep : is_lst (r_obj a) = negb (is_lst (r_obj b)) -> eql_m a b = false.
   Proof.
     intro D. destruct (is_lst (r_obj a)) eqn:La; simpl in D.
